@@ -26,7 +26,7 @@ CLAIMS = {
    tech="Coq proof (byte-account invariant and interleaving invariant over all histories, generic in the packet type) + trace equality + tail-drop oracle on implementation traces",
    text="Theorems in coq/Properties/Properties_C10.v for every history of arrivals and timer events: m_queue_size is the bytes held; a packet is dropped iff droppable, capacity > 0 and held + size > capacity; ACK/SYN-ACK/error never dropped; capacity 0 unlimited; arrivals = interleaving(dropped, forwarded ++ queued) i.e. exactly-once, unaltered, FIFO; a drop is reported in the arrival step only, with the packet itself."),
  "C15": dict(
-   note=COMMON_NOTE + "Model: coq/Model/HttpParse.v with checked reads of the caller's buffer. C++ side runs under ASan/UBSan on exactly-sized heap blocks. PARTIAL: totality, in-bounds, termination and the find_request_len specification are proved for every byte string and length; the round-trip clause for well-formed requests is covered by the correspondence and the oracle (field equality on implementation results), not yet by a theorem. tolower is modelled as the ASCII table (glibc C locale).",
+   note=COMMON_NOTE + "Model: coq/Model/HttpParse.v with checked reads of the caller's buffer. C++ side runs under ASan/UBSan on exactly-sized heap blocks. Totality, in-bounds, termination and the find_request_len specification are proved for every byte string and length; the round-trip clause is the theorem C15_round_trip (coq/Proofs/HttpRoundTrip.v): a request written field by field (method/target without blanks, version and header values without CR, header names without CR and colon) is parsed back into exactly those fields. tolower is modelled as the ASCII table (glibc C locale).",
    tech="Coq proof (no checked read ever fails, fuel never runs out, first-match specification) + three-way agreement of model, implementation under ASan, and an independent oracle on 4600+ inputs per run",
    text="Theorems in coq/Properties/Properties_C15.v for every byte string and every length: parse_request returns a request or the parse failure, never reads outside [0,len) and never exhausts its fuel; find_request_len is total, in bounds and returns the offset just past the first CRLFCRLF or -1; trim is total and in bounds on any string. Round trip: partial (see level_note)."),
  "C19": dict(
